@@ -52,7 +52,7 @@ func c07Actions(r *R, f *core.FSM) {
 			r.c.Stuck("C07.1", "action:"+ev, "", "action of "+ev+" not resolved or does not take (state, index)")
 			continue
 		}
-		arg := fn.Params[1].Name()
+		arg := core.ParamName(fn.Params[1])
 		sts := storesTo(fn, fld)
 		if len(sts) != 1 {
 			r.c.Bad("C07.1", "index-store:"+ev, r.p.Pos(fn.Pos()), fmt.Sprintf("action of %s stores to %s %d times, expected exactly once", ev, fld, len(sts)))
@@ -68,7 +68,7 @@ func c07Actions(r *R, f *core.FSM) {
 			r.c.Stuck("C07.1", "action:"+ev, "", "action of "+ev+" not resolved or does not take (state, delta)")
 			continue
 		}
-		arg := fn.Params[1].Name()
+		arg := core.ParamName(fn.Params[1])
 		sts := storesTo(fn, fld)
 		if len(sts) != 1 {
 			r.c.Bad("C07.1", "progress-store:"+ev, r.p.Pos(fn.Pos()), fmt.Sprintf("action of %s stores to %s %d times, expected exactly once", ev, fld, len(sts)))
